@@ -15,13 +15,13 @@ use std::{
 // Allows logging to a memory buffer with limited size.
 pub struct BufferWriter {
     state: Arc<Mutex<State>>,
+    format: FormatFunction,
 }
 struct State {
     buffer: VecDeque<String>,
     size: usize,
     last_update: Instant,
     max_size: usize,
-    format: FormatFunction,
 }
 
 impl BufferWriter {
@@ -30,11 +30,11 @@ impl BufferWriter {
         Self {
             state: Arc::new(Mutex::new(State {
                 max_size,
-                format,
                 buffer: VecDeque::new(),
                 size: 0,
                 last_update: Instant::now(),
             })),
+            format,
         }
     }
 
@@ -70,12 +70,13 @@ impl BufferWriter {
 }
 impl LogWriter for BufferWriter {
     fn write(&self, now: &mut DeferredNow, record: &Record) -> std::io::Result<()> {
-        let mut state = self.lock_state()?;
-
+        // format before taking the lock: the message may itself log (to this buffer)
         let mut logline = Vec::<u8>::with_capacity(80);
-        (state.format)(&mut logline, now, record).inspect_err(|e| {
+        (self.format)(&mut logline, now, record).inspect_err(|e| {
             eprint_err(ErrorCode::Format, "formatting failed", &e);
         })?;
+
+        let mut state = self.lock_state()?;
 
         if !logline.is_empty() {
             if logline.len() > state.max_size {
